@@ -272,7 +272,7 @@ Record mv_case := {
   mv_axis : nat;                          (* normalised to 0 .. ndim-1 by the harness *)
   mv_w : nat;
   mv_in : list fval;                      (* C-order flat input, exact *)
-  mv_obs : list (list nat * list fval)    (* observed (shape, C-order flat) of sum, mean, var, std, skew, kurtosis *)
+  mv_obs : list (mv_op * (list nat * list fval))   (* the operators called, each with the observed (shape, C-order flat) *)
 }.
 
 Definition mv_stats (c : mv_case) : option (list wstat) :=
@@ -292,7 +292,8 @@ Definition mv_check (c : mv_case) : bool :=
   && match mv_stats c with
      | Some stats =>
        let oshape := replace_nth axis (L + 1 - w)%nat shape in
-       forallb2 (fun op so => natlist_eqb oshape (fst so) && forallb2 (mv_match op) stats (snd so)) ops_all (mv_obs c)
+       (1 <=? length (mv_obs c))%nat
+       && forallb (fun e => natlist_eqb oshape (fst (snd e)) && forallb2 (mv_match (fst e)) stats (snd (snd e))) (mv_obs c)
      | None => false
      end.
 
@@ -304,10 +305,12 @@ Definition mv_expected (c : mv_case) : option (list (Q * Q * Q * Q * Q)) :=
   end.
 
 (* ---------------------------------------------------------------- pattern detection *)
-Record pd_case := {
+Record pd_case := {                        (* None = that score was not asked for in this call *)
   pd_x : list fval; pd_y : list fval;
-  pd_corr : list fval; pd_dist : list fval; pd_bcdc : list fval
+  pd_corr : option (list fval); pd_dist : option (list fval); pd_bcdc : option (list fval)
 }.
+Definition opt_forallb2 {A B} (f : A -> B -> bool) (l : list A) (o : option (list B)) : bool :=
+  match o with Some l' => forallb2 f l l' | None => true end.
 
 Definition is_nonfinite (v : fval) : bool := is_nan v || is_inf v.
 
@@ -358,9 +361,10 @@ Definition pd_check (c : pd_case) : bool :=
     let n := length y in
     let wins := windows n x in
     (1 <=? n)%nat && (n <? length x)%nat
-    && forallb2 (corr_match n y) wins (pd_corr c)
-    && forallb2 (dist_match y) wins (pd_dist c)
-    && forallb2 (bcdc_match n y) wins (pd_bcdc c)
+    && opt_forallb2 (corr_match n y) wins (pd_corr c)
+    && opt_forallb2 (dist_match y) wins (pd_dist c)
+    && opt_forallb2 (bcdc_match n y) wins (pd_bcdc c)
+    && match pd_corr c, pd_dist c, pd_bcdc c with None, None, None => false | _, _, _ => true end
   | _, _ => false
   end.
 
